@@ -103,10 +103,12 @@ Theorem T09_base64_narrowing_refuted :
 Proof. exact b64_narrowing_refuted. Qed.
 Print Assumptions T09_base64_narrowing_refuted.
 
-(** finding F26 (byte 0xFF indexes one past base64Inverse) *)
+(** finding F26 (byte 0xFF indexed one past a 255-entry base64Inverse): repaired in /repo (ed2dbdc).  The table is
+    regenerated from Base64.cpp on every run; it now has 256 entries and byte 0xFF is rejected by the faithful model with
+    and without the defect switch.  (Shrinking the table again makes this obligation fail.) *)
 Theorem T09_base64_table_refuted :
-  N.of_nat (length base64Inverse) = 255 /\
-  b64_decode true false false [0xFF; 0x41; 0x41; 0x41] = Some ([0; 0; 0], [0xFF; 0x41; 0x41; 0x41]) /\
+  N.of_nat (length base64Inverse) = 256 /\
+  b64_decode true false false [0xFF; 0x41; 0x41; 0x41] = None /\
   b64_lex [0xFF; 0x41; 0x41; 0x41] = false /\ b64_decode true false true [0xFF; 0x41; 0x41; 0x41] = None.
 Proof. exact b64_table_refuted. Qed.
 Print Assumptions T09_base64_table_refuted.
